@@ -254,7 +254,8 @@ def depth_step_rule(A: Analysis, col: Collector, rule: str):
                 stepped = isinstance(a, ast.BinOp) and isinstance(a.op, (ast.Sub, ast.Add)) and isinstance(a.left, ast.Name) and a.left.id == pname and isinstance(a.right, ast.Constant) and a.right.value == 1
                 passed = isinstance(a, ast.Name) and a.id == pname
                 per_call.append((c, 1 if stepped else 0, stepped or passed))
-            if not entry and not any(st_ for _, st_, _ in per_call):
+            compared = any(isinstance(k, ast.Compare) and isinstance(k.left, ast.Name) and k.left.id == pname and isinstance(k.ops[0], (ast.Gt, ast.GtE, ast.Lt, ast.LtE)) for k in walk_own(f.node))
+            if not entry and not any(st_ for _, st_, _ in per_call) and not (compared and all(fw for _, _, fw in per_call)):
                 continue  # not a depth counter
             n_fn += 1
             col.scope(f.qualname)
